@@ -16,15 +16,18 @@ def run(tier, replay=None):
     v.assumptions = [
         "verdicts of Before/After/Equals are logged as one code per pair (1 before, 2 after, 4 equal) in rows per left operand; TLC recomputes each row from the lexicographic operators of spec/Calendar.tla",
         "whole-second timestamps are logged as <<s div 2^20, s mod 2^20>> (TLC integers are 32 bit)",
-        "the segment rule of SetTimeProfile (accept <=> end not before start) is decided in C07's run (class timeprofile)",
+        "the segment rule of SetTimeProfile (accept <=> end not before start) is judged by Trace_Api!CheckSegmentRule on SetTimeProfile calls over all ordered pairs of a 23-value (thorough: 63) HH:mm set with equal pairs, one-minute neighbours and 24:00",
     ]
     if replay is None:
         common.model_checks(v, [("MC_Order", "MC_Order.cfg", {"workers": 4}, "pass")])
     summ = common.harness_traces("c16", tier, shards=16 if tier == "thorough" else 8, env={"TZ": "UTC"},
                                  extra_args=["-x", "only=" + open(replay + "/k").read()] if False else None)
     common.validate(v, "Trace_Pure", "Trace_Pure.cfg", summ, key)
+    # the segment rule of SetTimeProfile: accept <=> end not before start, over all ordered pairs of a boundary-rich HH:mm set
+    seg = common.harness_traces("c16seg", tier, shards=4, env={"TZ": "UTC"})
+    common.validate(v, "Trace_Api", "Trace_Api.cfg", seg, lambda conj, rec: "%s:SetTimeProfile:%s" % (conj, rec["a"]["profile"]["segments"]))
     v.coverage["rule"] = ("HH:mm: all 1441 right operands for every 5th (quick) / every (thorough) left operand 00:00..24:00; dates: every day of 1900, 2000, 2023, 2024 against its neighbours, year/month boundaries, 0001 and 9999, a 120^2 / 1500^2 random grid "
-                          "(values built at random clocks in foreign locations); date-time vs instant: 3000 / 60000 pairs straddling second boundaries. distinct = rows / pairs")
+                          "(values built at random clocks in foreign locations); date-time vs instant: 3000 / 60000 pairs straddling second boundaries. SetTimeProfile accept/reject for all ordered HH:mm pairs of a boundary set. distinct = rows / pairs")
     v.coverage["exhaustive"] = tier == "thorough"
     v.coverage["checker_cmd"] = "tlc MC_Order (laws on a bounded grid); tlc Trace_Pure"
     return v.finish(write_evidence=replay is None)
